@@ -114,11 +114,19 @@ impl<'a, I: Iterator<Item = Item>, F: StreamFilter + 'a> CompactionStream<'a, I,
     }
 
     /// Drains the remaining versions of the given key.
+    ///
+    /// Unless tombstones are being evicted (last level), draining stops at a weak tombstone:
+    /// it may still have to cancel out or shadow a value that lives in a deeper level,
+    /// so it is looked at on its own instead of being collected as an old version.
     fn drain_key(&mut self, key: &UserKey) -> crate::Result<()> {
+        let keep_weak_tombstones = !self.evict_tombstones;
+
         loop {
             let Some(next) = self.inner.next_if(|kv| {
                 if let Ok(kv) = kv {
-                    let expired = kv.key.user_key == key;
+                    let expired = kv.key.user_key == key
+                        && !(keep_weak_tombstones
+                            && kv.key.value_type == ValueType::WeakTombstone);
 
                     if expired {
                         if let Some(watcher) = &mut self.dropped_callback {
@@ -199,13 +207,26 @@ impl<'a, I: Iterator<Item = Item>, F: StreamFilter + 'a> Iterator for Compaction
                     let drop_weak_tombstone = peeked.key.value_type == ValueType::Value
                         && head.key.value_type == ValueType::WeakTombstone;
 
+                    if drop_weak_tombstone {
+                        // NOTE: A weak tombstone cancels out exactly the one value below it,
+                        // so only that value is dropped together with the tombstone.
+                        // Older versions must be looked at on their own:
+                        // e.g. an earlier weak tombstone may still have to shadow
+                        // a value that lives in a deeper level
+                        if let Some(dropped) = self.inner.next() {
+                            let dropped = fail_iter!(dropped);
+
+                            if let Some(watcher) = &mut self.dropped_callback {
+                                watcher.on_dropped(&dropped);
+                            }
+                        }
+
+                        continue;
+                    }
+
                     // NOTE: Next item is expired,
                     // so the tail of this user key is entirely expired, so drain it all
                     fail_iter!(self.drain_key(&head.key.user_key));
-
-                    if drop_weak_tombstone {
-                        continue;
-                    }
                 }
             } else if head.is_tombstone() && self.evict_tombstones {
                 continue;
